@@ -321,14 +321,25 @@ def draw_args(t, op, ctx):
         kind = t.draw(6, "mm-kind")  # 0,1 factory; 2 instance; 3 bad factory; 4,5 factory failing for option k=2
         mmv = TextXMetaModel() if kind == 2 else Factory(ctx, nm, bad=(kind == 3),
                                                          flaky={4: "raise", 5: "bad"}.get(kind))
+        usedl = ctx.__dict__.setdefault("used_lang_descs", [])
         if op == "register_language_desc":
-            return [LanguageDesc(nm, pattern=pat, metamodel=mmv)]
+            if usedl and t.chance(1, 4, "same-language-descriptor-again"):
+                return [t.pick(usedl, "which-language-descriptor")]
+            d = LanguageDesc(nm, pattern=pat, metamodel=mmv)
+            usedl.append(d)
+            return [d]
         return [nm, pat, mmv]
     if op == "register_generator":
         ln = t.pick(NAMES, "gen-lang")
         tg = t.pick(TARGETS, "gen-target")
+        used = ctx.__dict__.setdefault("used_descs", [])
+        if used and t.chance(1, 4, "same-descriptor-object-again"):
+            # the very same descriptor object registered a second time (a plug-in set-up that runs twice)
+            return [t.pick(used, "which-descriptor")]
         if t.chance(1, 2, "as-desc"):
-            return [GeneratorDesc(ln, tg, generator=_mkgen(ln, tg))]
+            d = GeneratorDesc(ln, tg, generator=_mkgen(ln, tg))
+            used.append(d)
+            return [d]
         return [ln, tg, _mkgen(ln, tg)]
     if op in ("language_description", "metamodel_for_language"):
         return [t.pick(NAMES, "name")]
